@@ -7,7 +7,7 @@
    At(i), 1 <= i <= n, so that a 65 537-entry table never has to be materialised.
 
    A walk is a sequence of operations on ONE iterator object:
-       <<"next", _>>, <<"nth", kW>>, <<"size_hint", _>>               (may continue)
+       <<"next", _>>, <<"nth", kW>>, <<"size_hint", _>>, <<"debug", _>>   (may continue)
        <<"rest", _>>, <<"fold", _>>, <<"collect", _>>, <<"skip", kW>>, <<"step_by", kW>>,
        <<"count", _>>, <<"last", _>>                                  (consume the iterator)
    and the observations are what each call returned.  What an iterator yields after it has
@@ -22,7 +22,7 @@ NthHits(n, pos, kW) == LET k == Val(kW) IN k # Huge /\ k < n - pos
 
 StepPos(n, pos, o) ==
     CASE o[1] = "next" -> Min2(pos + 1, n)
-      [] o[1] = "size_hint" -> pos
+      [] o[1] \in {"size_hint", "debug"} -> pos
       [] o[1] = "nth"  -> IF NthHits(n, pos, o[2]) THEN pos + Val(o[2]) + 1 ELSE n
       [] OTHER         -> n
 
@@ -33,6 +33,7 @@ ObsOf(At(_), n, pos, o) ==
         rem == n - pos
     IN CASE o[1] = "next" -> Opt(At, pos < n, pos + 1)
          [] o[1] = "nth"  -> Opt(At, NthHits(n, pos, o[2]), pos + k + 1)
+         [] o[1] = "debug" -> [dbg |-> TRUE]                 \* {:?} of the iterator: observed as "returned"
          [] o[1] = "size_hint" -> [hint |-> TRUE]            \* observed only as "returned" (its bounds are outside the properties)
          [] o[1] \in {"rest", "fold", "collect"} -> [items |-> [j \in 1..rem |-> At(pos + j)]]
          [] o[1] = "skip" -> LET m == IF k = Huge \/ k >= rem THEN 0 ELSE rem - k
